@@ -297,6 +297,16 @@ type CycleSpec struct {
 	// behind (or over NextAlpha/NextBeta of them) to check for a fixpoint.
 	FollowUp            bool
 	NextAlpha, NextBeta func(current *core.Entry) *core.Entry
+	// HaltAlpha / HaltBeta select the cycle kind "halt-during-transition": the
+	// Transition call of that side starts Pause(session) through the real
+	// Manager (once per cycle), blocks until the synchronization loop's context
+	// (the one handed to the latest Scan) is done, and only then returns its
+	// scripted results with a nil error. HaltTimeout bounds that wait (default
+	// 20 s); when it expires the cancellation counts as not observed. After the
+	// cycle RunCycle waits for Pause to return before it reads the archive.
+	// FollowUp is ignored for such cycles.
+	HaltAlpha, HaltBeta bool
+	HaltTimeout         time.Duration
 }
 
 // CycleResult is what RunCycle observed.
@@ -310,6 +320,12 @@ type CycleResult struct {
 	Next        []Event       // journal of the follow-up cycle
 	NextArchive *core.Archive // archive on disk after the follow-up cycle
 	NextState   *synchronization.State
+
+	// Halt-during-transition cycles only.
+	HaltStarted           bool  // a gated Transition call happened and started Pause
+	GatedTransitions      int   // Transition calls that were held
+	CancellationsObserved int   // ... of which saw the loop's context done before returning
+	PauseErr              error // what Pause returned
 }
 
 // RunCycle presets the ancestor (first cycle with identical snapshots), runs
@@ -330,16 +346,70 @@ func (h *Harness) RunCycle(ctx context.Context, s CycleSpec) (*CycleResult, erro
 	}
 	p.A.SetTransitionError(s.AlphaTransitionError)
 	p.B.SetTransitionError(s.BetaTransitionError)
+	var haltMu sync.Mutex
+	var pauseOnce sync.Once
+	pauseDone := make(chan struct{})
+	if s.HaltAlpha || s.HaltBeta {
+		timeout := s.HaltTimeout
+		if timeout <= 0 {
+			timeout = 20 * time.Second
+		}
+		gate := func(scanCtx context.Context) {
+			haltMu.Lock()
+			res.HaltStarted = true
+			res.GatedTransitions++
+			haltMu.Unlock()
+			pauseOnce.Do(func() {
+				go func() {
+					defer close(pauseDone)
+					h.RLock()
+					perr := h.Manager().Pause(context.Background(), ByID(p.ID), "")
+					h.RUnlock()
+					haltMu.Lock()
+					res.PauseErr = perr
+					haltMu.Unlock()
+				}()
+			})
+			t := time.NewTimer(timeout)
+			defer t.Stop()
+			select {
+			case <-scanCtx.Done():
+				haltMu.Lock()
+				res.CancellationsObserved++
+				haltMu.Unlock()
+			case <-t.C:
+			}
+		}
+		if s.HaltAlpha {
+			p.A.SetTransitionGate(gate)
+		}
+		if s.HaltBeta {
+			p.B.SetTransitionGate(gate)
+		}
+	}
 	var ok bool
 	if res.Cycle, ok = p.Cycle(ctx, s.Alpha, s.Beta); !ok {
 		return res, errors.New("cycle under test did not complete")
 	}
+	haltMu.Lock()
+	halted := res.HaltStarted
+	haltMu.Unlock()
+	if halted {
+		// The archive is read only after Pause has returned.
+		select {
+		case <-pauseDone:
+		case <-ctx.Done():
+			return res, errors.New("pause did not return")
+		}
+	}
+	p.A.SetTransitionGate(nil)
+	p.B.SetTransitionGate(nil)
 	if res.Archive, err = p.Archive(); err != nil {
 		return res, err
 	}
 	res.AlphaAfter, res.BetaAfter = p.A.Content(), p.B.Content()
 	res.State, _ = p.State(ctx)
-	if !s.FollowUp {
+	if !s.FollowUp || halted {
 		return res, nil
 	}
 	p.A.SetOutcome(nil)
